@@ -76,6 +76,13 @@ func c19ChildMain(spec string) {
 		deep = 0
 	}
 	switch hk % 4 {
+	case 0:
+		// "no handler" is reached in two ways: SetPanicHandler never called, or called with nil (an optional hook passed
+		// through unset) — the same thing for the property
+		if k%2 == 1 {
+			var none func(any)
+			l.SetPanicHandler(none)
+		}
 	case 1:
 		l.SetPanicHandler(goz.LogPanic(c19CountLogger{&reports}, deep))
 	case 2:
